@@ -174,7 +174,7 @@ def alone_vs_together(chk, repo, rule, where='TidalPy/RadialSolver/solver.pyx'):
     vector, a scaled boundary vector) may reach the second."""
     d = X.Decider(seed=chk.seed + 83, k=2)
     types = ('tidal', 'loading', 'free')
-    seqs = [('solid', 'solid'), ('solid', 'liquid', 'solid'), ('liquid-static', 'solid'), ('solid', 'liquid')] if chk.tier == 'quick' else layer_sequences(chk.tier)
+    seqs = [('solid', 'solid'), ('solid', 'liquid', 'solid'), ('liquid-static', 'solid'), ('solid', 'liquid'), ('solid', 'liquid-static')] if chk.tier == 'quick' else layer_sequences(chk.tier)
     n_run = 0
     for kinds in seqs:
         for nondim in ((False, True) if len(kinds) <= 3 else (False,)):
@@ -487,6 +487,32 @@ def starting_arguments(chk, repo, rule, where='TidalPy/RadialSolver/solver.pyx')
                 bad.append('the starting radius is not the radius the integration of the innermost layer starts at')
             chk.ob(rule, f'{lab}: the starting conditions are computed in the unit system of the equations they are integrated with (same frequency, G and starting radius as the innermost layer\'s solver)',
                    not bad, '; '.join(bad[:3]), where, key=f'{rule}|{lab}', method='recorded arguments of the whole-function symbolic execution')
+
+
+def surface_arguments(chk, repo, rule, where='TidalPy/RadialSolver/solver.pyx'):
+    """what the executed driver hands to cf_apply_surface_bc, dimensional and non-dimensionalised: the surface gravity and the gravitational constant of the unit system the
+    layer solutions were integrated in (a dimensional g next to a non-dimensional G changes the static-liquid surface condition y7 = y6 + (4 pi G / g) y2)"""
+    d = X.Decider(seed=chk.seed + 86, k=2, positive=[X.atom('rho_bulk', 'pos'), X.atom('Gconst', 'pos')])
+    mo = repo.by_path('TidalPy/RadialSolver/derivatives/odes.pyx')
+    bnames = role_names('cf_build_solver', [x.arg for x in mo.defs['cf_build_solver'].args.args])
+    for kinds in (('solid', 'solid'), ('solid', 'liquid-static'), ('solid', 'liquid')):
+        for nondim in (False, True):
+            lab = ' / '.join(kinds) + (', solved non-dimensionalised' if nondim else '')
+            r = SR.run_solver(repo, kinds, ('tidal', 'loading'), nondim)
+            bad = []
+            if not r.surface_calls:
+                bad.append(f'cf_apply_surface_bc is not reached (raised: {getattr(r.raised, "text", None)})')
+            for names, bound in r.surface_calls:
+                roles = role_names('cf_apply_surface_bc', names)
+                a = {role: bound.get(act) for role, act in zip(roles, names)}
+                g_now = bound.get('__gravity_top_now__')
+                b = dict(zip(bnames, r.build_calls[-1])) if r.build_calls else {}
+                if isinstance(a.get('surface_gravity'), Opaque) or g_now is None or not d.equal(X.lift(a['surface_gravity']), X.lift(g_now)):
+                    bad.append('surface_gravity is not the gravity of the top slice in the unit system of the solve')
+                if 'G_to_use' in b and (isinstance(a.get('G_to_use'), Opaque) or not d.equal(X.lift(a['G_to_use']), X.lift(b['G_to_use']))):
+                    bad.append('G_to_use is not the gravitational constant the layer equations were integrated with')
+            chk.ob(rule, f'layers {lab}: cf_apply_surface_bc receives the surface gravity and G of the unit system the layers were integrated in (every requested type)', not bad, '; '.join(sorted(set(bad))[:3]), where,
+                   key=f'{rule}|surface-args|{lab}', method='recorded arguments of the whole-function symbolic execution')
 
 
 def entry_point_arguments(chk, repo, rule, where='TidalPy/RadialSolver/solver.pyx'):
